@@ -1,5 +1,64 @@
-(* Cases of kind (heap ...): histories over statement variables (build / append / clone /
-   render) executed on the slice-level model of Model/Heap.v.  Stub until that model exists. *)
-From Jen Require Export Model.Exec.
+(* Cases of kind (heap): histories over statement variables executed on the slice-level model
+   of Model/Heap.v.
 
-Definition run_heap_case (ops : list sexp) : option (list str) := None.
+     (heap) (snew V) (sappend V <code> ...) (sclone V' V) (srender V) ...
+
+   Variables are numbered 0, 1, 2, ... in creation order: (snew V) and (sclone V' V) must
+   name the next free number, every other variable mentioned must exist; otherwise the
+   line is a bad case.  (sappend V c1 .. ck) is ONE append of k items (k >= 0); the items
+   are read with [dcode] of Model/Exec.v.  (srender V) prints what Statement.Render
+   writes for the variable's snapshot, in the observation syntax of rplain.  Clone is the
+   code as written ([clone_wrap]); the growth policy is the Go-like [go_grow] (by
+   C20_refines_lists every policy gives the same snapshots). *)
+From Jen Require Export Model.Exec.
+From Jen Require Import Model.Heap.
+Local Open Scope N_scope.
+
+Definition heap_step (h : heap) (op : sexp) : option (heap * list str) :=
+  match op with
+  | SList (Atom k :: args) =>
+    if str_eqb k (S "snew") then
+      match args with
+      | [ve] => obind (atom_N ve) (fun v => if v =? hp_nvars h then Some (new_stmt h, []) else None)
+      | _ => None
+      end
+    else if str_eqb k (S "sappend") then
+      match args with
+      | ve :: items =>
+        obind (atom_N ve) (fun v =>
+        if bound h v then
+          obind (all_some (map dcode items)) (fun cs => Some (append go_grow h v (map ICode cs), []))
+        else None)
+      | _ => None
+      end
+    else if str_eqb k (S "sclone") then
+      match args with
+      | [ce; ve] =>
+        obind (atom_N ce) (fun c => obind (atom_N ve) (fun v =>
+        if (c =? hp_nvars h) && bound h v then Some (clone_wrap h v, []) else None))
+      | _ => None
+      end
+    else if str_eqb k (S "srender") then
+      match args with
+      | [ve] =>
+        obind (atom_N ve) (fun v =>
+        if bound h v then
+          Some (h, [print_outcome false (code_render id_fmt (fun _ => false) (snapshot h v))])
+        else None)
+      | _ => None
+      end
+    else None
+  | _ => None
+  end.
+
+Fixpoint run_heap_ops (h : heap) (ops : list sexp) : option (list str) :=
+  match ops with
+  | [] => Some []
+  | op :: ops' =>
+    match heap_step h op with
+    | Some (h', obs) => omap (app obs) (run_heap_ops h' ops')
+    | None => None
+    end
+  end.
+
+Definition run_heap_case (ops : list sexp) : option (list str) := run_heap_ops empty_heap ops.
